@@ -65,6 +65,8 @@ pub fn profile(name: &str) -> Profile {
         "crashw" => Profile { name: "crashw", crash_w_pct: 18, restart_pct: 2, multi_unit_pct: 1, alo_pct: 0, ops: (10, 45), ..base },
         "crashr" => Profile { name: "crashr", crash_r_pct: 22, restart_pct: 2, multi_unit_pct: 1, alo_pct: 40, peek_pct: 10, ops: (12, 50), ..base },
         "marksfree" => Profile { name: "marksfree", marks_pct: 100, topics: 6, ops: (120, 260), alo_pct: 0, ..base },
+        "durable_inner" => Profile { name: "durable_inner", alo_pct: 0, peek_pct: 10, multi_unit_pct: 2, ops: (25, 70), restart_pct: 0, ..base },
+        "durable" => Profile { name: "durable", alo_pct: 0, peek_pct: 10, multi_unit_pct: 2, ops: (25, 70), restart_pct: 0, ..base },
         "twoinst" => Profile { name: "twoinst", reclaim_pct: 10, restart_pct: 2, ops: (50, 130), topics: 2, peek_pct: 15, multi_unit_pct: 0, alo_pct: 20, ..base },
         "crashbig" => Profile { name: "crashbig", crash_w_pct: 100, alo_pct: 0, mmap_pct: 25, ..base },
         "marks" => Profile { name: "marks", marks_pct: 45, restart_pct: 10, ops: (6, 30), ..base },
@@ -171,6 +173,28 @@ fn gen_crashbig(r: &mut Rng, g: &Geo, backend: &str) -> Vec<String> {
 pub fn gen_program(r: &mut Rng, g: &Geo, p: &Profile, backend: &str, seed_tag: u64) -> Vec<String> {
     if p.name == "crashbig" {
         return gen_crashbig(r, g, backend);
+    }
+    if p.name == "durable" {
+        // C10: an instance with FsyncSchedule::SyncEach, its I/O events recorded. Variant B: a NoFsync instance is
+        // constructed first in the same process (the O_SYNC decision of the storage layer is process-wide and
+        // taken by the first instance), then the SyncEach instance on another directory.
+        let mut q = p.clone();
+        q.name = "durable_inner";
+        let inner = gen_program(r, g, &q, backend, seed_tag);
+        let two = r.chance(40);
+        let mut out: Vec<String> = Vec::new();
+        for l in inner.iter() {
+            let kind = l.split_whitespace().next().unwrap_or("");
+            match kind {
+                "cfg" | "clock" => out.push(l.clone()),
+                "open" => {
+                    if two { out.push("open".into()); out.push("append t0 7:1".into()); out.push("trace on".into()); out.push("B opensync".into()); }
+                    else { out.push("trace on".into()); out.push("opensync".into()); }
+                }
+                _ => out.push(if two { format!("B {}", l) } else { l.clone() }),
+            }
+        }
+        return out;
     }
     if p.name == "marksfree" {
         // the background persister runs freely: bursts of opposite marker changes on the same topic while its
@@ -479,6 +503,8 @@ pub fn gen_program(r: &mut Rng, g: &Geo, p: &Profile, backend: &str, seed_tag: u
 pub struct RunResult {
     pub outs: Vec<String>,
     pub note: Option<String>,
+    /// the I/O event trace of the program (`trace on`), if any
+    pub trace: String,
 }
 
 /// Run one program: a fresh child process per segment (segments end at `restart`).
@@ -545,8 +571,9 @@ pub fn run_program(lines: &[String], tag: &str) -> RunResult {
         outs.push(tagw.to_string());
         while outs.len() < nops { outs.push("skipped".into()); }
     }
+    let trace = std::fs::read_to_string(format!("{}.trace", outf.to_string_lossy())).unwrap_or_default();
     let _ = std::fs::remove_dir_all(&base);
-    RunResult { outs, note }
+    RunResult { outs, note, trace }
 }
 
 fn json_str(s: &str) -> String {
@@ -593,6 +620,10 @@ pub fn run_all(programs: Vec<Vec<String>>, outdir: &std::path::Path, g: &Geo, pn
     for (k, (prog, res)) in programs.iter().zip(results.iter()).enumerate() {
         let res = res.as_ref().unwrap();
         std::fs::write(outdir.join("programs").join(format!("{}.prog", k)), prog.join("\n") + "\n").unwrap();
+        if !res.trace.is_empty() {
+            std::fs::create_dir_all(outdir.join("traces")).unwrap();
+            std::fs::write(outdir.join("traces").join(format!("{}.trace", k)), &res.trace).unwrap();
+        }
         let cfg = parse_cfg(&prog[0]);
         writeln!(map, "{} {} {}", k, line_no, prog.len()).unwrap();
         writeln!(ops, "eng {}", prog[0]).unwrap();
